@@ -146,6 +146,14 @@ func cmdCheck(args []string) {
 		for _, o := range cc.ledger.Obligations {
 			if !have[o] {
 				cc.missing = append(cc.missing, o)
+				// A labelled contract clause (calls / ensures / monitor / lock) that produced an
+				// obligation on the pinned tree and produces none now was satisfied vacuously: the
+				// call site or exit it speaks about no longer exists. Auto-numbered safety
+				// obligations are not treated this way (their names shift with harmless edits).
+				if stableObligationName(o) && cc.knownFor(o) == nil {
+					path := cc.writeReplay(o, "obligation discharged on the pinned tree is no longer generated (the call site / exit it constrains has disappeared)", &SolverAnswer{Status: "not-generated"}, nil)
+					cc.viol = append(cc.viol, fmt.Sprintf("VIOLATION property=%s replay=%s no-failing-input-found", cc.prop, path))
+				}
 			}
 		}
 	}
@@ -583,4 +591,20 @@ func contractServes(c *Contract, prop string) bool {
 		}
 	}
 	return false
+}
+
+// stableObligationName: names derived from contract labels (not from instruction ordinals).
+func stableObligationName(o string) bool {
+	if strings.Contains(o, "#retry") || strings.Contains(o, "#except") {
+		return false
+	}
+	i := strings.Index(o, "#")
+	if i < 0 {
+		return false
+	}
+	rest := o[i+1:]
+	if strings.Count(rest, "#") > 0 {
+		return false // second, third ... occurrence: ordinal-dependent
+	}
+	return strings.HasPrefix(rest, "calls:")
 }
